@@ -41,6 +41,9 @@ def run(db, rep, tier):
     rep.rule("R7-consume-handshake", "a completed handshake taken from the capturer is always cleared afterwards, whether or not keys could be "
                                      "derived from it", 1)
     r7(db, rep)
+    rep.rule("R8-ds-address-table", "which of addr1/2/3 is the BSSID, the source and the destination follows the 802.11 To-DS / From-DS table "
+                                    "in every key and access-point look-up", 4)
+    r8(db, rep)
     rep.explanation = ("Also decides the step table of RSNHandshakeCapturer::do_insert (R4: append iff next expected, keep state on a "
                        "retransmission of the last stored message). Decides two clauses of C09: 'frames whose integrity check fails are never reported as decrypted' "
                        "(guard dominance on every non-null return) and 'decrypting truncated/corrupted/hostile protected "
@@ -416,3 +419,85 @@ def r7(db, rep):
                       "the list, every later completed handshake is paired with this stale one, and no further keys are learned")
     else:
         rep.ok("R7-consume-handshake", key, facts.loc(f, uses[0]), "clear_handshakes() on every path after the handshake is used")
+
+
+# IEEE 802.11 address fields by (from_ds, to_ds); the 4-address case (1,1) is not constrained
+DS_TABLE = {
+    "BSSID": {(0, 0): "addr3", (0, 1): "addr1", (1, 0): "addr2"},
+    "SA": {(0, 0): "addr2", (0, 1): "addr2", (1, 0): "addr3"},
+    "DA": {(0, 0): "addr1", (0, 1): "addr3", (1, 0): "addr1"},
+}
+DS_SITES = (
+    ("Tins::Crypto::WPA2Decrypter::find_ap", ("BSSID",), "return"),
+    ("Tins::Crypto::WPA2Decrypter::extract_addr_pair", ("BSSID", "SA"), "return"),
+    ("Tins::Crypto::WPA2Decrypter::extract_addr_pair_dst", ("BSSID", "DA"), "return"),
+    ("Tins::Crypto::WEPDecrypter::decrypt", ("BSSID",), "assign"),
+)
+
+
+def r8(db, rep):
+    from vlib import formula
+    for q, roles, how in DS_SITES:
+        fs = [f for f in db.fns_named(q) if f.get("body") and any(
+            x["k"] == "CXXMemberCallExpr" and x.get("cname") in ("from_ds", "to_ds") for x in facts.fn_nodes(f))]
+        short = q.split("::")[-2] + "::" + q.split("::")[-1]
+        if not fs:
+            rep.analysis_broken("%s (with its To-DS / From-DS tests) vanished" % q)
+            continue
+        f = fs[0]
+        # atoms
+        def addrs(n):
+            return frozenset(x.get("cname") for x in facts.walk(n) if x["k"] == "CXXMemberCallExpr" and x.get("cname") in ("addr1", "addr2", "addr3", "addr4"))
+        ds_ifs = [x for x in facts.fn_nodes(f) if x["k"] == "IfStmt" and any(
+            y["k"] == "CXXMemberCallExpr" and y.get("cname") in ("from_ds", "to_ds") for y in facts.walk([z for z in x["c"] if z is not None][0]))]
+        if not ds_ifs:
+            rep.analysis_broken("%s: DS tests not found" % short)
+            continue
+        top = ds_ifs[0]
+
+        def outcome(stmt, fd, td):
+            """addrN set selected by the if-chain for the given bits"""
+            if stmt is None:
+                return frozenset()
+            if stmt["k"] == "IfStmt":
+                real = [z for z in stmt["c"] if z is not None]
+                v = evalc(real[0], fd, td)
+                if v is None:
+                    raise ValueError("condition `%s`" % facts.expr_str(real[0]))
+                return outcome(real[1], fd, td) if v else outcome(real[2] if len(real) > 2 else None, fd, td)
+            return addrs(stmt)
+
+        def evalc(c, fd, td):
+            c0 = strip(c)
+            if c0["k"] == "BinaryOperator" and c0.get("op") in ("&&", "||"):
+                a, b = evalc(c0["c"][0], fd, td), evalc(c0["c"][1], fd, td)
+                if a is None or b is None:
+                    return None
+                return (a and b) if c0["op"] == "&&" else (a or b)
+            if c0["k"] == "UnaryOperator" and c0.get("op") == "!":
+                a = evalc(c0["c"][0], fd, td)
+                return None if a is None else (not a)
+            if c0["k"] == "CXXMemberCallExpr" and (c0.get("cname") or "").startswith("operator ") and c0["c"] and c0["c"][0].get("c"):
+                return evalc(c0["c"][0]["c"][0], fd, td)
+            if c0["k"] == "CXXMemberCallExpr" and c0.get("cname") == "from_ds":
+                return bool(fd)
+            if c0["k"] == "CXXMemberCallExpr" and c0.get("cname") == "to_ds":
+                return bool(td)
+            return None
+        bad = None
+        try:
+            for (fd, td) in ((0, 0), (0, 1), (1, 0)):
+                got = outcome(top, fd, td)
+                want = frozenset(DS_TABLE[r][(fd, td)] for r in roles)
+                if got != want:
+                    bad = ("From-DS=%d, To-DS=%d: uses %s; in that frame format the %s %s %s" %
+                           (fd, td, sorted(got) or "no address", " and ".join(roles), "is" if len(roles) == 1 else "are", sorted(want)))
+                    break
+        except ValueError as e:
+            rep.analysis_broken("%s: %s is outside the DS-table evaluator" % (short, e))
+            continue
+        key = "%s:ds-table" % short
+        if bad:
+            rep.violation("R8-ds-address-table", key, facts.loc(f, top), bad + ": keys and access points are looked up under the wrong station")
+        else:
+            rep.ok("R8-ds-address-table", key, facts.loc(f, top), "%s selected per 802.11 for (0,0), (0,1), (1,0)" % "/".join(roles))
